@@ -16,7 +16,7 @@ NEED_EXT = True
 REQUIRED = ["frame.fit", "frame.methods", "fault.invalid_data", "fault.inner_estimator", "fault.call_site",
             "atomicity.refit", "upstream.monitored_calls"]
 RULE = ("for each of the fittable registered classes and each configuration: one clean fit + every output method "
-        "under the frame monitor; 14 invalid-data classes; probe estimators failing on their k-th fit for every k "
+        "under the frame monitor; 20 invalid-data classes; probe estimators failing on their k-th fit for every k "
         "seen in the clean run (serial and n_jobs=4); every fallible call site of fit from the census at its first and "
         "last hit (quick: all sites of the two anchored fits and a sample of the others; thorough: all); non-trivial = "
         "a fault that made fit raise after at least one statement of fit ran; distinct = distinct (class, "
@@ -280,6 +280,13 @@ def invalid_datasets(spec, D):
             mod(lambda d: d.__setitem__("y", numpy.zeros(len(d["y"]), dtype=int)), "single-label")
             mod(lambda d: d.__setitem__("w", -numpy.ones(len(d["y"]))), "negative-weights")
             mod(lambda d: d.__setitem__("w", numpy.ones(3)), "weights-length-mismatch")
+            mod(lambda d: d.__setitem__("w", numpy.array(["a"] * len(d["y"]))), "string-weights")
+            mod(lambda d: d.__setitem__("w", {"a": 1.0}), "dict-weights")
+            mod(lambda d: d.__setitem__("w", [[1.0, 2.0], [3.0]] + [[1.0]] * (len(d["y"]) - 2)), "ragged-weights")
+            mod(lambda d: d.__setitem__("w", numpy.where(numpy.arange(len(d["y"])) == 3, numpy.nan, 1.0)),
+                "nan-weights")
+            mod(lambda d: d.__setitem__("w", numpy.ones((len(d["y"]), 2))), "weights-2d")
+            mod(lambda d: d.__setitem__("w", numpy.zeros(len(d["y"]))), "all-zero-weights")
     elif isinstance(X, pandas.DataFrame):
         out.append(("not-a-frame", {"X": X.to_numpy()}))
         out.append(("empty-frame", {"X": X.iloc[:0]}))
